@@ -31,6 +31,16 @@ LossyFrom(bs, i) ==
        IF w > 0 THEN SubSeq(bs, i + 1, i + w) \o LossyFrom(bs, i + w)
        ELSE FFFD \o LossyFrom(bs, i + BadLen(bs, i))
 Lossy8(bs) == LossyFrom(bs, 0)
+\* the same text as the sequence of pieces from_utf8_lossy pushes: maximal well-formed runs and U+FFFD
+RECURSIVE ValidRunEnd(_, _)
+ValidRunEnd(bs, i) == IF i >= Len(bs) THEN i ELSE LET w == WfWidth(bs, i) IN IF w = 0 THEN i ELSE ValidRunEnd(bs, i + w)
+RECURSIVE LossyItemsFrom(_, _)
+LossyItemsFrom(bs, i) ==
+  IF i >= Len(bs) THEN <<>>
+  ELSE LET e == ValidRunEnd(bs, i) IN
+       IF e >= Len(bs) THEN <<SubSeq(bs, i + 1, e)>>
+       ELSE <<SubSeq(bs, i + 1, e), FFFD>> \o LossyItemsFrom(bs, e + BadLen(bs, e))
+LossyItems(bs) == LossyItemsFrom(bs, 0)
 Valid8(bs) == ValidFrom(bs, 0)
 
 \* ---------------------------------------------------------------- UTF-16
@@ -50,4 +60,16 @@ Dec16From(us, i) ==
        ELSE LET r == Dec16From(us, i + 1) IN      \* unpaired surrogate
             [ok |-> FALSE, text |-> <<>>, lossy |-> FFFD \o r.lossy]
 Dec16(us) == Dec16From(us, 1)
+\* the characters from_utf16 pushes before it meets the first unpaired surrogate / from_utf16_lossy collects
+RECURSIVE Dec16Items(_, _, _)
+Dec16Items(us, i, lossy) ==      \* [items, ok]
+  IF i > Len(us) THEN [items |-> <<>>, ok |-> TRUE]
+  ELSE LET u == us[i] IN
+       IF ~IsHigh(u) /\ ~IsLow(u)
+       THEN LET r == Dec16Items(us, i + 1, lossy) IN [items |-> <<Enc(u)>> \o r.items, ok |-> r.ok]
+       ELSE IF IsHigh(u) /\ i < Len(us) /\ IsLow(us[i + 1])
+       THEN LET r == Dec16Items(us, i + 2, lossy) IN
+            [items |-> <<Enc(65536 + (u - 55296) * 1024 + (us[i + 1] - 56320))>> \o r.items, ok |-> r.ok]
+       ELSE IF lossy THEN LET r == Dec16Items(us, i + 1, lossy) IN [items |-> <<FFFD>> \o r.items, ok |-> r.ok]
+       ELSE [items |-> <<>>, ok |-> FALSE]
 =============================================================================
